@@ -1015,6 +1015,16 @@ def rule_value_preserving(rep: Report, repo: Repo, modules=None):
                 if any(isinstance(x, ast.Attribute) and x.attr == other and norm(x.value) == norm(node.value) for x in ast.walk(f)):
                     rep.ok(R, f"{mod}::{q} splits `{norm(node.value)[:40]}` into real and imaginary part", "both parts are used", repo.loc(mod, node))
                     continue
+            # a rounded / projected value that only feeds a truth test (`not np.any(np.round(x, d))`) is a tolerance test, not an element value
+            up, feeds_predicate = getattr(node, "_parent", None), False
+            while up is not None and not isinstance(up, ast.stmt):
+                if isinstance(up, ast.Call) and (call_name(up) or "") in ("np.any", "np.all", "any", "all", "np.count_nonzero", "bool", "np.allclose", "np.array_equal"):
+                    feeds_predicate = True
+                    break
+                up = getattr(up, "_parent", None)
+            if feeds_predicate and kind == "round":
+                rep.ok(R, f"{mod}::{q} {what} `{txt[:60]}` only feeds a truth test", "a tolerance test of a predicate, not an element value", repo.loc(mod, node))
+                continue
             if key in LOSSY_EXEMPT:
                 rep.ok(R, f"{mod}::{q} {what} `{txt[:60]}` (exempt)", LOSSY_EXEMPT[key], repo.loc(mod, node))
             elif kind in {k_[2] for k_ in LOSSY_EXEMPT} and q.split(".")[0] not in _reference_units(mod):
